@@ -179,6 +179,13 @@ def plan(tier: str) -> Dict[str, Any]:
 # ---------------------------------------------------------------------------
 # one evaluation through the seam
 # ---------------------------------------------------------------------------
+def _decision_cap(doc: Any) -> int:
+    """Random decisions one evaluation may consume before it is called non-terminating: a filter
+    with a root or descendant query runs a whole walk per candidate, so quadratic in the size."""
+    n = D.count_nodes(doc)
+    return 20_000 + 60 * n * n
+
+
 def _locs_det(text: str, doc: Any) -> List[Tuple]:
     assert _DENV is not None
     return [n.location for n in _DENV.find(text, doc)]
@@ -207,7 +214,7 @@ def run_stream(text: str, doc: Any, sseed: int, profile: Dict[str, Any], feed: O
     """
     assert _NENV is not None
     sim = simrandom.SimRandom(sseed, profile, feed)
-    sim.cap = 50_000  # decisions per evaluation; documents here have < 50 nodes
+    sim.cap = _decision_cap(doc)
     simrandom.install(sim)
     try:
         try:
@@ -226,7 +233,7 @@ def run_stream(text: str, doc: Any, sseed: int, profile: Dict[str, Any], feed: O
             else:
                 nodes = _NENV.find(text, doc)
         except simrandom.ChoiceBudgetExceeded:
-            return None, "no-termination: more than 50000 random decisions consumed", True, sim.log[:200], sim.draws
+            return None, f"no-termination: more than {sim.cap} random decisions consumed", True, sim.log[:200], sim.draws
         except Exception as exc:  # noqa: BLE001
             return None, type(exc).__name__, True, sim.log, sim.draws
     finally:
@@ -255,7 +262,7 @@ def run_tapped(text: str, doc: Any, sseed: int, profile: Dict[str, Any], feed: O
     """
     assert _NENV is not None
     sim = simrandom.SimRandom(sseed, profile, feed)
-    sim.cap = 50_000
+    sim.cap = _decision_cap(doc)
     simrandom.install(sim)
     try:
         try:
@@ -270,7 +277,7 @@ def run_tapped(text: str, doc: Any, sseed: int, profile: Dict[str, Any], feed: O
                 taps.append([tuple(n.location) for n in nodes])
             return taps, None, sim.log
         except simrandom.ChoiceBudgetExceeded:
-            return None, "no-termination: more than 50000 random decisions consumed", sim.log[:200]
+            return None, f"no-termination: more than {sim.cap} random decisions consumed", sim.log[:200]
         except Exception as exc:  # noqa: BLE001
             return None, type(exc).__name__, sim.log
     finally:
